@@ -1,73 +1,17 @@
 /- Line-protocol engine for C18 (resource store). See go/overlay/internal/verifharness/c18. -/
 import CV.Res
 import CV.ResLin
+import CV.Engine.C18Codec
+import CV.Engine.C18Svc
 namespace CV.Engine.C18
 open CV CV.Res
-
-/-! ### codecs -/
-
-def parseID (tok : String) : Option RID :=
-  match tok.splitOn ";" with
-  | [g, gv, k, p, n, nm, u] => do
-      let g ← decB g; let gv ← decB gv; let k ← decB k; let p ← decB p
-      let n ← decB n; let nm ← decB nm; let u ← decB u
-      pure ⟨⟨g, gv, k⟩, ⟨p, n⟩, nm, u⟩
-  | _ => none
-
-def encID (i : RID) : String :=
-  ";".intercalate [encB i.typ.group, encB i.typ.gv, encB i.typ.kind, encB i.ten.part, encB i.ten.ns, encB i.name, encB i.uid]
-
-def parseRes (tok : String) : Option Res :=
-  match tok.splitOn "|" with
-  | [i, o, v, d] => do
-      let id ← parseID i
-      let owner ← if o == "-" then some none else (parseID o).map some
-      let v ← decS v
-      let d ← d.toNat?
-      pure ⟨id, owner, v, d⟩
-  | _ => none
-
-def encRes (r : Res) : String :=
-  "|".intercalate [encID r.id, (match r.owner with | none => "-" | some o => encID o), encS r.version, toString r.data]
-
-def encRows (rs : List Res) : String := encList (rs.map encRes)
-
-def parseRows (tok : String) : Option (List Res) := (decList tok).mapM parseRes
-
-def parseQuery (tok : String) : Option Query :=
-  match tok.splitOn ";" with
-  | [g, k, p, n, x] => do
-      let g ← decB g; let k ← decB k; let p ← decB p; let n ← decB n; let x ← decB x
-      pure ⟨g, k, p, n, x⟩
-  | _ => none
-
-def encWRes : WRes → String
-  | .ok => "ok" | .cas => "cas" | .wrongUid => "wronguid"
-
-def encRead : ReadRes → String
-  | .found r => "found " ++ encRes r
-  | .notFound => "notfound"
-  | .gvMismatch r => "gvmismatch " ++ encRes r
-
-def encWEv : WEv → String
-  | .upsert r => "upsert " ++ encRes r
-  | .delete r => "delete " ++ encRes r
-  | .eos => "eos"
-
-def encNext : NextRes → String
-  | .ev e => encWEv e
-  | .closed => "closed"
-  | .unsubErr => "unsub"
-  | .block => "none"
-
-def parseHandle (t : String) : Option Nat :=
-  if t.startsWith "h" then (t.drop 1).toString.toNat? else none
 
 /-! ### engine state: the sequential world + the history being collected -/
 
 structure St where
   w    : World
   hist : Lin.Hist
+  svc  : C18Svc.SSt := {}   -- the service-level world (ops starting with `S`, see CV.Engine.C18Svc)
   live : Bool := false      -- compare with the repaired index guard (`Watch.nextLive`), see `cfg guard-live`
 
 def bad (s : St) : St × String := (s, "bad-op")
@@ -177,7 +121,10 @@ def step (s : St) (toks : List String) : St × String :=
   | none =>
     match stepHist s toks with
     | some r => r
-    | none => bad s
+    | none =>
+      match C18Svc.step s.svc toks with
+      | some (svc', out) => ({ s with svc := svc' }, out)
+      | none => bad s
 
 def engine : Engine := { State := St, init := { w := World.init, hist := {} }, step := step }
 
